@@ -12,7 +12,7 @@ parse_requests(data) -> Result
 MUST-reject rules implemented (RFC 9112 unless noted):
   2.2   bare LF (or any LF not preceded by CR) where CRLF is required; bare CR
   3     request-line = token SP request-target SP "HTTP/" DIGIT "." DIGIT, single SP
-  3.2   request-target: no whitespace / control bytes
+  3.2   request-target: no whitespace / control bytes; origin-form, absolute-form, authority-form (CONNECT), asterisk-form (OPTIONS)
   3.2   HTTP/1.1 request without exactly one Host  (400)
   5.1   no whitespace between field name and colon; field-name = token
   5.2   obsolete line folding in a request (400)
@@ -151,6 +151,15 @@ def parse_requests(data, max_msgs=8, honour_upgrade=True):
         if len(version) != 8 or version[:5] != b"HTTP/" or version[6:7] != b"." \
                 or not all_in(version[5:6], DIGIT) or not all_in(version[7:8], DIGIT):
             return res.reject("http-version")
+        # RFC 9112 3.2: origin-form | absolute-form | authority-form (CONNECT only) | asterisk-form (OPTIONS only)
+        if method == b"CONNECT":
+            if b"/" in target or b":" not in target:
+                res.softly("connect-target-not-host-port")  # what else passes for an authority is the URL library's call
+        elif target == b"*":
+            if method != b"OPTIONS":
+                return res.reject("asterisk-form-without-OPTIONS")
+        elif target[:1] != b"/" and b"://" not in target:
+            return res.reject("request-target-form")
         msg.method = method
         msg.target = target
         msg.version = (version[5] - 48, version[7] - 48)
